@@ -219,6 +219,10 @@ def mk_quote_market(sim, mid, fund, quotes, cls=Market, shares=10, tr=None):
         m._add_order(Order(9, mid, True, LIMIT_ORDER, 1, price=99.0))
     elif quotes == "bid_only":
         m._add_order(Order(9, mid, True, LIMIT_ORDER, 1, price=99.0))
+    elif quotes == "ask_only":
+        m._add_order(Order(9, mid, False, LIMIT_ORDER, 1, price=100.25))
+    elif quotes == "low_ask_only":
+        m._add_order(Order(9, mid, False, LIMIT_ORDER, 1, price=97.0))
     else:
         b, a = quotes
         m._add_order(Order(9, mid, True, LIMIT_ORDER, 1, price=float(b)))
@@ -227,7 +231,7 @@ def mk_quote_market(sim, mid, fund, quotes, cls=Market, shares=10, tr=None):
 
 
 def mm_cases(tier):
-    Q = ["none", "mo_top", "bid_only", (99, 101), (98, 103), (100.5, 100.75)]
+    Q = ["none", "mo_top", "bid_only", "ask_only", "low_ask_only", (99, 101), (98, 103), (100.5, 100.75)]
     for q0, q1 in itertools.product(Q, repeat=2):
         for fund in (90, 100):
             for spread in (2.0 ** -6, 0.125):
